@@ -310,7 +310,9 @@ def local_gp_fitting(
 
     # Empirical prior on covariance signal variance ((output scale)
     if options["warp_func"] == 0:
-        sd_y = np.log(np.std(gp.y))
+        # All-equal observations (plateau, constant target) have zero spread:
+        # fall back to the smallest output scale instead of log(0)
+        sd_y = np.log(np.maximum(np.std(gp.y), options["tol_fun"]))
     else:
         # TODO warp function (Matlab  gpdefbads line-code 302)
         pass
@@ -894,6 +896,8 @@ def _gp_hyp(
     elif isinstance(gp.mean, gpr.mean_functions.ConstantMean):
         # Lower maximum constant mean
         sd = np.std(hpd_y) if len(hpd_y) > 1 else 1.0
+        if not sd > 0:  # all-equal observations: avoid a zero-width prior
+            sd = 1.0
         priors["mean_const"] = ("gaussian", (mean_x0, sd))
         bounds["mean_const"] = (mean_bounds_info["LB"], mean_bounds_info["UB"])
 
